@@ -79,11 +79,11 @@ def anchor(ctx: Ctx, info: dict) -> None:
 def first_run(ctx: Ctx) -> None:
     rule = "R-C06-FIRST"
     f = ctx.func("repid.job.Job._construct_parameters")
-    dc = [n for n in ast.walk(f.node) if isinstance(n, ast.Call) and isinstance(n.func, ast.Attribute) and n.func.attr == "DELAY_CLASS"]
-    dc = [n for n in dc if C.utext(f, n.func).endswith("PARAMETERS_CLASS.DELAY_CLASS")]
-    ctx.require(len(dc) == 1, f"{f.qualname}: DELAY_CLASS(...) construction not found")
+    cons = C.constructions(ctx, f, [f.node], "DELAY_CLASS")
+    ctx.require(len(cons) == 1, f"{f.qualname}: DELAY_CLASS(...) construction not found")
+    dc = [cons[0][0]]
     for kwname, src in (("delay_until", "self.deferred_until"), ("defer_by", "self.deferred_by"), ("cron", "self.cron")):
-        v = C.kw(dc[0], kwname)
+        v = cons[0][1].get(kwname)
         ctx.check(dotted(v) == src, rule, f, f"DELAY_CLASS({kwname}=...)", f"{kwname} <- {src}",
                   f"Job._construct_parameters passes {kwname}={unparse(v) if v is not None else '<missing>'} instead of {src}", node=dc[0],
                   instance=f"job delay mapping {kwname}")
@@ -123,7 +123,10 @@ def first_run(ctx: Ctx) -> None:
     # the comparison must be against the current time
     cmps = [c for c in ast.walk(f.node) if isinstance(c, ast.Compare) and isinstance(c.ops[0], (ast.Gt, ast.Lt, ast.GtE, ast.LtE))
             and (_mentions(c.left, "delay_until") or _mentions(c.comparators[0], "delay_until"))]
-    ctx.floor(rule, len(cmps), 1, "comparisons of delay_until in compute_next_execution_time")
+    if not cmps:
+        ctx.fail(rule, f, "delay_until returned without comparing it with the current time",
+                 "compute_next_execution_time never compares delay_until with now: an already elapsed deferred_until is returned as the next execution time "
+                 "(the message is parked as delayed in the past / the successor of a recurring job is scheduled in the past)", instance="delay_until vs now")
     for c in cmps:
         other = c.comparators[0] if _mentions(c.left, "delay_until") else c.left
         is_now = any(isinstance(d, ast.Call) and (dotted(d.func) or "").endswith("datetime.now") for x in C.expand_locals(f, other) for d in ast.walk(x))
